@@ -52,7 +52,10 @@ Defs == <<IFn("pa", <<Param("b", T8), Param("a", T8)>>, <<TP>>, BlkE(<<>>, ETupl
           IFn("pb", <<Param("a", T8), Param("b", T8)>>, <<TP>>,
               BlkE(<<SLet(PId("a"), T8, V("b"))>>, ETuple(<<V("a"), V("b")>>)))>>
 
+\* (the last two probes read a name inside a nested block / a match arm and again right after that scope has ended)
 Probes == {ETuple(<<V("a"), V("b")>>), ECall(CFn("pa"), <<V("a"), V("b")>>), ECall(CFn("pb"), <<V("a"), V("b")>>),
+           ETuple(<<BlkE(<<SLet(PId("c"), T8, Dec(77))>>, V("a")), V("a")>>),
+           ETuple(<<EMatch(V("w"), <<Arm(MLeft("l", T8), V("b")), Arm(MRight("r", T8), V("b"))>>), V("b")>>),
            EMatch(V("w"), <<Arm(MLeft("a", T8), ETuple(<<V("a"), V("b")>>)), Arm(MRight("b", T8), ETuple(<<V("a"), V("b")>>))>>)}
 
 MaxStmts == 2
